@@ -115,32 +115,183 @@ theorem auth_message_format (authid clientNonce : Bytes) (ch : Challenge) :
   simp only [authMessageText, clientFirstBare, serverFirst, clientFinalNoProof, e1, e2,
     List.append_assoc, List.cons_append]
 
-/-- `.encode("ascii")` succeeds exactly when every character is ASCII, and then changes nothing -/
-theorem auth_message_ok_iff (authid clientNonce : Bytes) (ch : Challenge) (am : Bytes) :
-    authMessage authid clientNonce ch = .ok am
-      ↔ (∀ c ∈ authMessageText authid clientNonce ch, c < 128) ∧ am = authMessageText authid clientNonce ch := by
-  unfold authMessage
-  simp only
-  split
-  · rename_i h
-    simp only [reduceCtorEq, false_iff, not_and]
-    intro hall
-    rw [List.any_eq_true] at h
-    obtain ⟨c, hc, hge⟩ := h
-    have := hall c hc
-    simp only [ge_iff_le, decide_eq_true_eq] at hge
-    exact absurd this (Nat.not_lt.mpr hge)
-  · rename_i h
-    simp only [Except.ok.injEq]
+/-! ### `.encode("utf8")` of the auth message -/
+
+/-- every code point of the text is a Unicode scalar value (no lone surrogate) -/
+def Scalar (t : Text) : Prop := ∀ c ∈ t, Utf8.isScalar c = true
+
+instance (t : Text) : Decidable (Scalar t) := by unfold Scalar; infer_instance
+
+/-- `.encode("utf8")` succeeds exactly on texts without lone surrogates and then is the RFC 3629 encoding,
+code point by code point -/
+theorem encodeUtf8_ok_iff {t : Text} {z : Bytes} :
+    encodeUtf8 t = .ok z ↔ Scalar t ∧ z = Utf8.encodeAll t := by
+  unfold encodeUtf8 Scalar
+  by_cases h : t.all Utf8.isScalar = true
+  · rw [if_pos h]
+    rw [List.all_eq_true] at h
     constructor
-    · rintro rfl
-      refine ⟨?_, rfl⟩
-      intro c hc
-      rw [Bool.not_eq_true, List.any_eq_false] at h
-      have := h c hc
-      simp only [ge_iff_le, decide_eq_true_eq] at this
-      exact Nat.not_le.mp this
+    · intro e; injection e with e; exact ⟨h, e.symm⟩
     · rintro ⟨_, rfl⟩; rfl
+  · rw [if_neg h]
+    rw [List.all_eq_true] at h
+    constructor
+    · intro e; cases e
+    · rintro ⟨h', _⟩; exact absurd h' h
+
+/-- the only way `.encode("utf8")` fails: `UnicodeEncodeError` on a lone surrogate -/
+theorem encodeUtf8_error_iff {t : Text} {e : Err} :
+    encodeUtf8 t = .error e ↔ e = .unicodeEncodeError ∧ ¬ Scalar t := by
+  unfold encodeUtf8 Scalar
+  by_cases h : t.all Utf8.isScalar = true
+  · rw [if_pos h]
+    rw [List.all_eq_true] at h
+    constructor
+    · intro e; cases e
+    · rintro ⟨_, h'⟩; exact absurd h h'
+  · rw [if_neg h]
+    rw [List.all_eq_true] at h
+    constructor
+    · intro e; injection e with e; exact ⟨e.symm, h⟩
+    · rintro ⟨rfl, _⟩; rfl
+
+theorem encodeUtf8_scalar {t : Text} (h : Scalar t) : encodeUtf8 t = .ok (Utf8.encodeAll t) :=
+  encodeUtf8_ok_iff.mpr ⟨h, rfl⟩
+
+theorem scalar_append {a b : Text} : Scalar (a ++ b) ↔ Scalar a ∧ Scalar b := by
+  unfold Scalar
+  simp only [List.mem_append]
+  constructor
+  · intro h; exact ⟨fun c hc => h c (Or.inl hc), fun c hc => h c (Or.inr hc)⟩
+  · rintro ⟨ha, hb⟩ c (hc | hc)
+    · exact ha c hc
+    · exact hb c hc
+
+theorem encodeAll_append (a b : Text) : Utf8.encodeAll (a ++ b) = Utf8.encodeAll a ++ Utf8.encodeAll b := by
+  simp [Utf8.encodeAll]
+
+/-- ASCII text is encoded as itself: one octet per character, the same octet `.encode("ascii")` gave -/
+theorem ofOctets_ascii : ∀ {bs : Bytes}, (∀ b ∈ bs, b < 128) →
+    Scalar (Text.ofOctets bs) ∧ Utf8.encodeAll (Text.ofOctets bs) = bs
+  | [], _ => ⟨(by intro c hc; cases hc), rfl⟩
+  | b :: bs, h => by
+    have hb : b < 128 := h b (by simp)
+    have hb' : b.toNat < 128 := hb
+    obtain ⟨ih1, ih2⟩ := ofOctets_ascii (bs := bs) (fun c hc => h c (by simp [hc]))
+    constructor
+    · intro c hc
+      simp only [Text.ofOctets, List.map_cons, List.mem_cons] at hc
+      rcases hc with rfl | hc
+      · simp [Utf8.isScalar]; omega
+      · exact ih1 c hc
+    · have e : Utf8.encodeAll (Text.ofOctets (b :: bs)) = Utf8.encode b.toNat ++ Utf8.encodeAll (Text.ofOctets bs) := by
+        simp [Utf8.encodeAll, Text.ofOctets]
+      rw [e, ih2]
+      have : Utf8.encode b.toNat = [b] := by
+        unfold Utf8.encode
+        rw [if_pos (by omega)]
+        simp
+      rw [this]; rfl
+
+theorem decimalAux_ascii : ∀ (fuel n : Nat) (acc : Bytes), (∀ b ∈ acc, b < 128) → ∀ b ∈ decimalAux fuel n acc, b < 128
+  | 0, _, _, h => h
+  | fuel + 1, n, acc, h => by
+    have hd : ∀ b ∈ UInt8.ofNat (48 + n % 10) :: acc, b < 128 := by
+      intro b hb
+      simp only [List.mem_cons] at hb
+      rcases hb with rfl | hb
+      · show (UInt8.ofNat (48 + n % 10)).toNat < 128
+        have : (UInt8.ofNat (48 + n % 10)).toNat = 48 + n % 10 := by
+          simp only [UInt8.toNat_ofNat']; omega
+        omega
+      · exact h b hb
+    simp only [decimalAux]
+    split
+    · exact hd
+    · exact decimalAux_ascii fuel (n / 10) _ hd
+
+/-- `str(n)` is ASCII -/
+theorem decimal_ascii (n : Nat) : ∀ b ∈ decimal n, b < 128 :=
+  decimalAux_ascii _ _ _ (by simp)
+
+/-- **auth_message_utf8**: when no field holds a lone surrogate the auth message is the exact concatenation
+`n=…,r=…,r=…,s=…,i=…,c=…,r=…` of the UTF-8 encodings of the fields (the literals and the decimal iteration
+count are ASCII) — RFC 5802 §5.1 / §3 `AuthMessage` -/
+theorem auth_message_utf8 (authid cn : Text) (ch : ChallengeStr)
+    (ha : Scalar authid) (hc : Scalar cn) (hsn : Scalar ch.serverNonce) (hs : Scalar ch.salt)
+    (hcb : Scalar ch.channelBinding) :
+    authMessage authid cn ch = .ok (authMessageText (Utf8.encodeAll authid) (Utf8.encodeAll cn)
+      ⟨Utf8.encodeAll ch.serverNonce, Utf8.encodeAll ch.salt, ch.iterations, Utf8.encodeAll ch.channelBinding⟩) := by
+  have l1 := ofOctets_ascii (bs := ascii "n=") (by decide)
+  have l2 := ofOctets_ascii (bs := ascii ",r=") (by decide)
+  have l3 := ofOctets_ascii (bs := ascii ",s=") (by decide)
+  have l4 := ofOctets_ascii (bs := ascii ",i=") (by decide)
+  have l5 := ofOctets_ascii (bs := ascii ",c=") (by decide)
+  have l6 := ofOctets_ascii (decimal_ascii ch.iterations)
+  unfold authMessage
+  rw [encodeUtf8_ok_iff]
+  unfold authMessageStr Text.lit
+  refine ⟨?_, ?_⟩
+  · simp only [scalar_append]
+    exact ⟨⟨⟨⟨⟨⟨⟨⟨⟨⟨⟨⟨⟨l1.1, ha⟩, l2.1⟩, hc⟩, l2.1⟩, hsn⟩, l3.1⟩, hs⟩, l4.1⟩, l6.1⟩, l5.1⟩, hcb⟩, l2.1⟩, hsn⟩
+  · rw [auth_message_format]
+    simp only [encodeAll_append, l1.2, l2.2, l3.2, l4.2, l5.2, l6.2]
+
+/-- **auth_message_ok_iff**: `on_challenge` gets an auth message exactly when no field holds a lone surrogate
+(the one thing `.encode("utf8")` refuses); a non-ASCII authid, nonce, salt or binding is no obstacle -/
+theorem auth_message_ok_iff (authid cn : Text) (ch : ChallengeStr) (am : Bytes) :
+    authMessage authid cn ch = .ok am
+      ↔ (Scalar authid ∧ Scalar cn ∧ Scalar ch.serverNonce ∧ Scalar ch.salt ∧ Scalar ch.channelBinding)
+        ∧ am = authMessageText (Utf8.encodeAll authid) (Utf8.encodeAll cn)
+            ⟨Utf8.encodeAll ch.serverNonce, Utf8.encodeAll ch.salt, ch.iterations, Utf8.encodeAll ch.channelBinding⟩ := by
+  constructor
+  · intro h
+    have hs : Scalar (authMessageStr authid cn ch) := by
+      unfold authMessage at h
+      exact (encodeUtf8_ok_iff.mp h).1
+    unfold authMessageStr at hs
+    simp only [scalar_append] at hs
+    obtain ⟨⟨⟨⟨⟨⟨⟨⟨⟨⟨⟨⟨⟨_, ha⟩, _⟩, hc⟩, _⟩, hsn⟩, _⟩, hs⟩, _⟩, _⟩, _⟩, hcb⟩, _⟩, _⟩ := hs
+    refine ⟨⟨ha, hc, hsn, hs, hcb⟩, ?_⟩
+    rw [auth_message_utf8 authid cn ch ha hc hsn hs hcb] at h
+    injection h with h; exact h.symm
+  · rintro ⟨⟨ha, hc, hsn, hs, hcb⟩, rfl⟩
+    exact auth_message_utf8 authid cn ch ha hc hsn hs hcb
+
+/-- the only failure is `UnicodeEncodeError`, and only for a lone surrogate in some field -/
+theorem auth_message_error_iff (authid cn : Text) (ch : ChallengeStr) (e : Err) :
+    authMessage authid cn ch = .error e
+      ↔ e = .unicodeEncodeError
+        ∧ ¬ (Scalar authid ∧ Scalar cn ∧ Scalar ch.serverNonce ∧ Scalar ch.salt ∧ Scalar ch.channelBinding) := by
+  constructor
+  · intro h
+    have h' := h
+    unfold authMessage at h'
+    refine ⟨(encodeUtf8_error_iff.mp h').1, ?_⟩
+    rintro ⟨ha, hc, hsn, hs, hcb⟩
+    rw [auth_message_utf8 authid cn ch ha hc hsn hs hcb] at h
+    cases h
+  · rintro ⟨rfl, hn⟩
+    cases hr : authMessage authid cn ch with
+    | ok am => exact absurd ((auth_message_ok_iff authid cn ch am).mp hr).1 hn
+    | error e' =>
+      unfold authMessage at hr
+      rw [(encodeUtf8_error_iff.mp hr).1]
+
+/-- for all-ASCII fields (every exchange that worked before the auth message was encoded as UTF-8) the
+octets are the characters themselves — what `.encode("ascii")` produced: nothing changes for them -/
+theorem auth_message_ascii (a cn sn s cb : Bytes) (it : Nat)
+    (ha : ∀ b ∈ a, b < 128) (hc : ∀ b ∈ cn, b < 128) (hsn : ∀ b ∈ sn, b < 128) (hs : ∀ b ∈ s, b < 128)
+    (hcb : ∀ b ∈ cb, b < 128) :
+    authMessage (Text.ofOctets a) (Text.ofOctets cn) ⟨Text.ofOctets sn, Text.ofOctets s, it, Text.ofOctets cb⟩
+      = .ok (authMessageText a cn ⟨sn, s, it, cb⟩) := by
+  have h1 := ofOctets_ascii ha
+  have h2 := ofOctets_ascii hc
+  have h3 := ofOctets_ascii hsn
+  have h4 := ofOctets_ascii hs
+  have h5 := ofOctets_ascii hcb
+  rw [auth_message_utf8 _ _ _ h1.1 h2.1 h3.1 h4.1 h5.1]
+  simp only [h1.2, h2.2, h3.2, h4.2, h5.2]
 
 /-! ### the auth message determines every field of the exchange -/
 
@@ -257,9 +408,137 @@ theorem auth_message_injective (a a' cn cn' : Bytes) (ch ch' : Challenge)
   simp only at h3 h4 h5 h6
   simp [h3, h4, h5, h6]
 
+/-! ### … also as text: UTF-8 is injective -/
+
+theorem ofNat_inj {a b : Nat} (ha : a < 256) (hb : b < 256) (h : UInt8.ofNat a = UInt8.ofNat b) : a = b := by
+  have := congrArg UInt8.toNat h
+  simp only [UInt8.toNat_ofNat'] at this
+  omega
+
+theorem isScalar_iff (c : Nat) : Utf8.isScalar c = true ↔ c ≤ 0x10FFFF ∧ ¬ (0xD800 ≤ c ∧ c ≤ 0xDFFF) := by
+  simp [Utf8.isScalar]
+  omega
+
+/-- RFC 3629 encodings are prefix-free: the first octet tells the length, the octets tell the code point -/
+theorem encode_prefix_free {c d : Nat} (hc : Utf8.isScalar c = true) (hd : Utf8.isScalar d = true) {x y : Bytes}
+    (h : Utf8.encode c ++ x = Utf8.encode d ++ y) : c = d ∧ x = y := by
+  rw [isScalar_iff] at hc hd
+  unfold Utf8.encode at h
+  by_cases c1 : c < 0x80 <;> by_cases c2 : c < 0x800 <;> by_cases c3 : c < 0x10000 <;>
+  by_cases d1 : d < 0x80 <;> by_cases d2 : d < 0x800 <;> by_cases d3 : d < 0x10000 <;>
+  simp only [c1, c2, c3, d1, d2, d3, if_true, if_false, List.cons_append, List.nil_append, List.cons.injEq] at h <;>
+  first
+  | (exfalso; omega)
+  | (obtain ⟨h1, h2, h3, h4, hr⟩ := h
+     have e1 := ofNat_inj (by omega) (by omega) h1
+     have e2 := ofNat_inj (by omega) (by omega) h2
+     have e3 := ofNat_inj (by omega) (by omega) h3
+     have e4 := ofNat_inj (by omega) (by omega) h4
+     exact ⟨by omega, hr⟩)
+  | (obtain ⟨h1, h2, h3, hr⟩ := h
+     have e1 := ofNat_inj (by omega) (by omega) h1
+     have e2 := ofNat_inj (by omega) (by omega) h2
+     have e3 := ofNat_inj (by omega) (by omega) h3
+     first | (exfalso; omega) | exact ⟨by omega, hr⟩)
+  | (obtain ⟨h1, h2, hr⟩ := h
+     have e1 := ofNat_inj (by omega) (by omega) h1
+     have e2 := ofNat_inj (by omega) (by omega) h2
+     first | (exfalso; omega) | exact ⟨by omega, hr⟩)
+  | (obtain ⟨h1, hr⟩ := h
+     have e1 := ofNat_inj (by omega) (by omega) h1
+     first | (exfalso; omega) | exact ⟨by omega, hr⟩)
+
+
+theorem encode_ne_nil (c : Nat) : Utf8.encode c ≠ [] := by
+  unfold Utf8.encode
+  split
+  · simp
+  · split
+    · simp
+    · split <;> simp
+
+/-- **utf8_injective**: different texts have different UTF-8 encodings -/
+theorem encodeAll_injective : ∀ {s t : Text}, Scalar s → Scalar t → Utf8.encodeAll s = Utf8.encodeAll t → s = t
+  | [], [], _, _, _ => rfl
+  | [], d :: t, _, _, h => by
+    have e : Utf8.encodeAll (d :: t) = Utf8.encode d ++ Utf8.encodeAll t := by simp [Utf8.encodeAll]
+    rw [e] at h
+    have : Utf8.encode d = [] := (List.append_eq_nil_iff.mp h.symm).1
+    exact absurd this (encode_ne_nil d)
+  | c :: s, [], _, _, h => by
+    have e : Utf8.encodeAll (c :: s) = Utf8.encode c ++ Utf8.encodeAll s := by simp [Utf8.encodeAll]
+    rw [e] at h
+    have : Utf8.encode c = [] := (List.append_eq_nil_iff.mp h).1
+    exact absurd this (encode_ne_nil c)
+  | c :: s, d :: t, hs, ht, h => by
+    have e1 : Utf8.encodeAll (c :: s) = Utf8.encode c ++ Utf8.encodeAll s := by simp [Utf8.encodeAll]
+    have e2 : Utf8.encodeAll (d :: t) = Utf8.encode d ++ Utf8.encodeAll t := by simp [Utf8.encodeAll]
+    rw [e1, e2] at h
+    obtain ⟨hcd, hr⟩ := encode_prefix_free (hs c (by simp)) (ht d (by simp)) h
+    have := encodeAll_injective (fun x hx => hs x (by simp [hx])) (fun x hx => ht x (by simp [hx])) hr
+    rw [hcd, this]
+
+/-- a text without U+002C has no comma octet in its encoding (every octet of a multi-octet sequence is ≥ 0x80) -/
+theorem comma_not_mem_encodeAll : ∀ {t : Text}, Scalar t → 44 ∉ t → comma ∉ Utf8.encodeAll t
+  | [], _, _ => by simp [Utf8.encodeAll]
+  | c :: t, hs, hn => by
+    have e1 : Utf8.encodeAll (c :: t) = Utf8.encode c ++ Utf8.encodeAll t := by simp [Utf8.encodeAll]
+    rw [e1]
+    have hc := (isScalar_iff c).mp (hs c (by simp))
+    have hne : c ≠ 44 := fun e => hn (by simp [e])
+    have ih := comma_not_mem_encodeAll (t := t) (fun x hx => hs x (by simp [hx])) (fun hx => hn (by simp [hx]))
+    refine no_comma_append ?_ ih
+    intro hm
+    unfold Utf8.encode at hm
+    by_cases c1 : c < 0x80 <;> by_cases c2 : c < 0x800 <;> by_cases c3 : c < 0x10000 <;>
+    simp only [c1, c2, c3, if_true, if_false, List.mem_cons, List.not_mem_nil, or_false] at hm <;>
+    first
+    | (exfalso; omega)
+    | (rcases hm with hm | hm | hm | hm <;>
+       · have := ofNat_inj (a := 44) (by omega) (by omega) hm; omega)
+    | (rcases hm with hm | hm | hm <;>
+       · have := ofNat_inj (a := 44) (by omega) (by omega) hm; omega)
+    | (rcases hm with hm | hm <;>
+       · have := ofNat_inj (a := 44) (by omega) (by omega) hm; omega)
+    | (have := ofNat_inj (a := 44) (by omega) (by omega) hm; omega)
+
+
+/-- the fields, as Python `str`, contain no U+002C (base64 text, a SASLprep'd authid without comma) -/
+structure CommaFreeStr (authid cn : Text) (ch : ChallengeStr) : Prop where
+  authid : 44 ∉ authid
+  cn : 44 ∉ cn
+  sn : 44 ∉ ch.serverNonce
+  salt : 44 ∉ ch.salt
+  cb : 44 ∉ ch.channelBinding
+
+/-- **auth_message_injective_str**: the same statement for the `str` values the code handles — two exchanges
+with the same auth message octets have the same authid, nonces, salt, iteration count and channel binding,
+character by character, non-ASCII text included (UTF-8 is injective and never produces a comma octet inside
+a multi-octet sequence) -/
+theorem auth_message_injective_str (a a' cn cn' : Text) (ch ch' : ChallengeStr) (am : Bytes)
+    (hf : CommaFreeStr a cn ch) (hf' : CommaFreeStr a' cn' ch')
+    (h : authMessage a cn ch = .ok am) (h' : authMessage a' cn' ch' = .ok am) :
+    a = a' ∧ cn = cn' ∧ ch = ch' := by
+  obtain ⟨⟨s1, s2, s3, s4, s5⟩, e⟩ := (auth_message_ok_iff a cn ch am).mp h
+  obtain ⟨⟨t1, t2, t3, t4, t5⟩, e'⟩ := (auth_message_ok_iff a' cn' ch' am).mp h'
+  have hcf : CommaFree (Utf8.encodeAll a) (Utf8.encodeAll cn)
+      ⟨Utf8.encodeAll ch.serverNonce, Utf8.encodeAll ch.salt, ch.iterations, Utf8.encodeAll ch.channelBinding⟩ :=
+    ⟨comma_not_mem_encodeAll s1 hf.authid, comma_not_mem_encodeAll s2 hf.cn, comma_not_mem_encodeAll s3 hf.sn,
+     comma_not_mem_encodeAll s4 hf.salt, comma_not_mem_encodeAll s5 hf.cb⟩
+  have hcf' : CommaFree (Utf8.encodeAll a') (Utf8.encodeAll cn')
+      ⟨Utf8.encodeAll ch'.serverNonce, Utf8.encodeAll ch'.salt, ch'.iterations, Utf8.encodeAll ch'.channelBinding⟩ :=
+    ⟨comma_not_mem_encodeAll t1 hf'.authid, comma_not_mem_encodeAll t2 hf'.cn, comma_not_mem_encodeAll t3 hf'.sn,
+     comma_not_mem_encodeAll t4 hf'.salt, comma_not_mem_encodeAll t5 hf'.cb⟩
+  obtain ⟨h1, h2, h3⟩ := auth_message_injective _ _ _ _ _ _ hcf hcf' (e.symm.trans e')
+  injection h3 with g1 g2 g3 g4
+  refine ⟨encodeAll_injective s1 t1 h1, encodeAll_injective s2 t2 h2, ?_⟩
+  cases ch; cases ch'
+  simp only at s3 s4 s5 t3 t4 t5 g1 g2 g3 g4
+  rw [encodeAll_injective s3 t3 g1, encodeAll_injective s4 t4 g2, g3, encodeAll_injective s5 t5 g4]
+
 /-- what `on_challenge` returns and keeps: the base64 of the proof the server accepts, the salted
 password and the auth message. -/
-theorem on_challenge_spec (P : Prims) (authid cn : Bytes) (ch : Challenge) (sp : Bytes)
+theorem on_challenge_spec (P : Prims) (authid cn : Text) (ch : ChallengeStr) (sp : Bytes)
     (out : Bytes) (s : Session) (h : onChallenge P authid cn ch sp = .ok (out, s)) :
     s.saltedPassword = sp ∧ authMessage authid cn ch = .ok s.authMessage ∧
     ∃ proof, clientProof P sp s.authMessage = .ok proof ∧ out = Base64.encode proof ∧
@@ -275,12 +554,22 @@ theorem on_challenge_spec (P : Prims) (authid cn : Bytes) (ch : Challenge) (sp :
       obtain ⟨rfl, rfl⟩ := h
       exact ⟨rfl, rfl, proof, hp, rfl, Base64.decodeStr_encode proof, scram_server_verify P sp am proof hp⟩
 
-/-- with fixed-length HMACs `on_challenge` fails only when the auth message is not ASCII -/
-theorem on_challenge_ok {P : Prims} {n : Nat} (hP : P.FixedLen n) (authid cn : Bytes) (ch : Challenge)
+/-- with fixed-length HMACs `on_challenge` succeeds whenever the auth message can be encoded -/
+theorem on_challenge_ok {P : Prims} {n : Nat} (hP : P.FixedLen n) (authid cn : Text) (ch : ChallengeStr)
     (sp am : Bytes) (ham : authMessage authid cn ch = .ok am) :
     ∃ out, onChallenge P authid cn ch sp = .ok (out, ⟨sp, am⟩) := by
   unfold onChallenge
   simp [ham, client_proof_ok hP, bind, Except.bind, pure, Except.pure]
+
+/-- **on_challenge_total**: with fixed-length HMACs (every real HMAC) `on_challenge` produces a proof for every
+authid, nonce, salt and binding that are proper Unicode text — in particular for an authid that is still
+non-ASCII after SASLprep (SASLprep itself prohibits surrogates, RFC 3454 C.5) -/
+theorem on_challenge_total {P : Prims} {n : Nat} (hP : P.FixedLen n) (authid cn : Text) (ch : ChallengeStr)
+    (sp : Bytes) (ha : Scalar authid) (hc : Scalar cn) (hsn : Scalar ch.serverNonce) (hs : Scalar ch.salt)
+    (hcb : Scalar ch.channelBinding) :
+    ∃ out s, onChallenge P authid cn ch sp = .ok (out, s) :=
+  let ⟨out, h⟩ := on_challenge_ok hP authid cn ch sp _ (auth_message_utf8 authid cn ch ha hc hsn hs hcb)
+  ⟨out, _, h⟩
 
 /-- **scram_welcome_iff**: `on_welcome` accepts iff the (leniently) base64-decoded alleged signature
 equals `HMAC(HMAC(SaltedPassword, "Server Key"), AuthMessage)` — this is exactly what the code compares. -/
@@ -396,14 +685,114 @@ theorem welcome_binds_session (P : Prims) (s : Session) (sp' am' : Bytes)
     serverSignature P sp' am' = serverSignature P s.saltedPassword s.authMessage :=
   (welcome_accepts_only_signature P s _).mp h
 
-/-- the KDF dispatch as the code stands: `kdf = "pbkdf2"` always fails with `ValueError` (ledger F15),
-an unknown KDF with `RuntimeError`, Argon2id without `memory` with `ValueError`. -/
+/-- the KDF dispatch: `kdf = "pbkdf2"` decodes the salt and runs PBKDF2-HMAC-SHA256 for 32 octets, an unknown
+KDF raises `RuntimeError`, Argon2id without `memory` raises `ValueError`. -/
 theorem kdf_dispatch (kdfArgon : Bytes → Bytes → Nat → Nat → Except Err Bytes) (pw salt : Bytes) (it : Nat) :
-    saltedPassword kdfArgon .pbkdf2 pw salt it = .error .valueError
+    saltedPassword kdfArgon .pbkdf2 pw salt it = pbkdf2Secret pw salt it
     ∧ saltedPassword kdfArgon .other pw salt it = .error .runtimeError
     ∧ saltedPassword kdfArgon (.argon2id13 none) pw salt it = .error .valueError
     ∧ ∀ m, saltedPassword kdfArgon (.argon2id13 (some m)) pw salt it = kdfArgon pw salt it m :=
   ⟨rfl, rfl, rfl, fun _ => rfl⟩
+
+/-- **scram_pbkdf2_salted_password**: for the PBKDF2 flavour SaltedPassword is
+`PBKDF2-HMAC-SHA256(password, salt, iterations, 32)` over the *decoded* salt — RFC 5802 §3
+`SaltedPassword := Hi(Normalize(password), salt, i)` with SHA-256 (`Hi` is PBKDF2 with one block) -/
+theorem scram_pbkdf2_salted_password (kdfArgon : Bytes → Bytes → Nat → Nat → Except Err Bytes)
+    (pw saltText salt : Bytes) (it : Nat) (hs : Base64.decodeStr saltText = .ok salt) (hi : 1 ≤ it) :
+    saltedPassword kdfArgon .pbkdf2 pw saltText it = .ok (Pbkdf2.hmacSha256 pw salt it 32) := by
+  have : ¬ it = 0 := by omega
+  simp [saltedPassword, pbkdf2Secret, hs, Cra.pbkdf2, this]
+
+/-- … in particular for the canonical base64 text of any salt a router sends -/
+theorem scram_pbkdf2_salted_password_encoded (kdfArgon : Bytes → Bytes → Nat → Nat → Except Err Bytes)
+    (pw salt : Bytes) (it : Nat) (hi : 1 ≤ it) :
+    saltedPassword kdfArgon .pbkdf2 pw (Base64.encode salt) it = .ok (Pbkdf2.hmacSha256 pw salt it 32) :=
+  scram_pbkdf2_salted_password kdfArgon pw _ salt it (Base64.decodeStr_encode salt) hi
+
+/-- the salted password of the PBKDF2 flavour has 32 octets -/
+theorem scram_pbkdf2_salted_password_length (kdfArgon : Bytes → Bytes → Nat → Nat → Except Err Bytes)
+    (pw saltText sp : Bytes) (it : Nat) (h : saltedPassword kdfArgon .pbkdf2 pw saltText it = .ok sp) :
+    sp.length = 32 := by
+  simp only [saltedPassword, pbkdf2Secret] at h
+  split at h
+  · simp only [Cra.pbkdf2] at h
+    split at h
+    · cases h
+    · injection h with h; rw [← h]; exact Pbkdf2.hmacSha256_length _ _ _ _
+  · cases h
+  · cases h
+
+/-- when the PBKDF2 flavour fails: an undecodable salt (`binascii.Error`), a non-ASCII salt text
+(`ValueError`) or an iteration count of 0 (`ValueError`) — never for a decodable salt and `iterations ≥ 1` -/
+theorem scram_pbkdf2_error_iff (kdfArgon : Bytes → Bytes → Nat → Nat → Except Err Bytes)
+    (pw saltText : Bytes) (it : Nat) (e : Err) :
+    saltedPassword kdfArgon .pbkdf2 pw saltText it = .error e
+      ↔ (Base64.decodeStr saltText = .binasciiError ∧ e = .binasciiError)
+        ∨ (Base64.decodeStr saltText = .valueError ∧ e = .valueError)
+        ∨ ((∃ salt, Base64.decodeStr saltText = .ok salt) ∧ it = 0 ∧ e = .valueError) := by
+  simp only [saltedPassword, pbkdf2Secret]
+  cases hd : Base64.decodeStr saltText with
+  | ok salt =>
+    by_cases hi : it = 0
+    · subst hi
+      simp only [Cra.pbkdf2, if_true]
+      constructor
+      · intro h; injection h with h
+        refine Or.inr (Or.inr ⟨?_, ?_, ?_⟩)
+        · first | trivial | exact ⟨salt, rfl⟩
+        · first | trivial | rfl
+        · first | exact h.symm | (subst h; trivial)
+      · rintro (⟨h, _⟩ | ⟨h, _⟩ | ⟨_, _, rfl⟩)
+        · cases h
+        · cases h
+        · rfl
+    · simp only [Cra.pbkdf2, if_neg hi]
+      constructor
+      · intro h; cases h
+      · rintro (⟨h, _⟩ | ⟨h, _⟩ | ⟨_, h, _⟩)
+        · cases h
+        · cases h
+        · exact absurd h hi
+  | binasciiError =>
+    constructor
+    · intro h; injection h with h; exact Or.inl ⟨rfl, h.symm⟩
+    · rintro (⟨_, rfl⟩ | ⟨h, _⟩ | ⟨⟨_, h⟩, _⟩)
+      · rfl
+      · cases h
+      · cases h
+  | valueError =>
+    constructor
+    · intro h; injection h with h; exact Or.inr (Or.inl ⟨rfl, h.symm⟩)
+    · rintro (⟨h, _⟩ | ⟨_, rfl⟩ | ⟨⟨_, h⟩, _⟩)
+      · cases h
+      · rfl
+      · cases h
+
+/-- **scram_pbkdf2_interoperates**: the whole PBKDF2 flavour against an RFC 5802 server. The server knows only
+`StoredKey = H(HMAC(SaltedPassword, "Client Key"))` and `ServerKey = HMAC(SaltedPassword, "Server Key")` derived
+from `SaltedPassword = PBKDF2-HMAC-SHA256(password, salt, i, 32)` (RFC 5802 §3), sends the base64 text of the
+salt and sees the same auth message octets. Then, for every password, salt, `i ≥ 1` and every text without lone
+surrogates (non-ASCII authid included): `on_challenge` answers, the answer decodes to a proof the server
+accepts, and `on_welcome` accepts that server's signature. -/
+theorem scram_pbkdf2_interoperates (kdfArgon : Bytes → Bytes → Nat → Nat → Except Err Bytes)
+    (pw salt : Bytes) (it : Nat) (hi : 1 ≤ it) (authid cn : Text) (ch : ChallengeStr)
+    (ha : Scalar authid) (hc : Scalar cn) (hsn : Scalar ch.serverNonce) (hs : Scalar ch.salt)
+    (hcb : Scalar ch.channelBinding) :
+    let spServer := Pbkdf2.hmacSha256 pw salt it 32
+    ∃ sp out s proof,
+      saltedPassword kdfArgon .pbkdf2 pw (Base64.encode salt) it = .ok sp ∧ sp = spServer
+      ∧ onChallenge sha256Prims authid cn ch sp = .ok (out, s)
+      ∧ authMessage authid cn ch = .ok s.authMessage
+      ∧ Base64.decodeStr out = .ok proof
+      ∧ serverVerify sha256Prims (storedKey sha256Prims spServer) s.authMessage proof = true
+      ∧ onWelcome sha256Prims s (Base64.encode (serverSignature sha256Prims spServer s.authMessage)) = .accept := by
+  intro spServer
+  obtain ⟨out, s, h⟩ := on_challenge_total sha256Prims_fixedLen authid cn ch spServer ha hc hsn hs hcb
+  obtain ⟨hsp, ham, proof, _, _, hdec, hver⟩ := on_challenge_spec sha256Prims authid cn ch spServer out s h
+  refine ⟨spServer, out, s, proof, scram_pbkdf2_salted_password_encoded kdfArgon pw salt it hi, rfl, h, ham, hdec, hver, ?_⟩
+  have := welcome_accepts_genuine sha256Prims s
+  rw [hsp] at this
+  exact this
 
 end Scram
 
@@ -749,7 +1138,28 @@ example : authMessageText (ascii "user") (ascii "Y2xpZW50") ⟨ascii "c2VydmVy",
     = ascii "n=user,r=Y2xpZW50,r=c2VydmVy,s=c2FsdA==,i=4096,c=,r=c2VydmVy" := by decide
 example : CommaFree (ascii "user") (ascii "Y2xpZW50") ⟨ascii "c2VydmVy", ascii "c2FsdA==", 4096, []⟩ :=
   ⟨by decide, by decide, by decide, by decide, by decide⟩
-example : authMessage [0xe9] [] ⟨[], [], 1, []⟩ = .error .unicodeEncodeError := by decide
+-- a non-ASCII authid ('é', '€', U+1F511) is encoded, not refused; a lone surrogate is what `.encode("utf8")` refuses
+example : authMessage [0xe9, 0x20ac, 0x1f511] [] ⟨[], [], 1, []⟩
+    = .ok (ascii "n=" ++ [0xc3, 0xa9, 0xe2, 0x82, 0xac, 0xf0, 0x9f, 0x94, 0x91] ++ ascii ",r=,r=,s=,i=1,c=,r=") := by decide
+example : authMessage [0xd800] [] ⟨[], [], 1, []⟩ = .error .unicodeEncodeError := by decide
+example : authMessage [117] [] ⟨[0xdfff], [], 1, []⟩ = .error .unicodeEncodeError := by decide
+example : Scalar [0xe9, 0x20ac, 0x1f511] := by decide
+example : ¬ Scalar [0xd800] := by decide
+example : CommaFreeStr [0xfc, 115] (Text.lit "Y2xpZW50") ⟨Text.lit "c2VydmVy", Text.lit "c2FsdA==", 4096, []⟩ :=
+  ⟨by decide, by decide, by decide, by decide, by decide⟩
+example : authMessage (Text.lit "user") (Text.lit "Y2xpZW50") ⟨Text.lit "c2VydmVy", Text.lit "c2FsdA==", 4096, []⟩
+    = .ok (ascii "n=user,r=Y2xpZW50,r=c2VydmVy,s=c2FsdA==,i=4096,c=,r=c2VydmVy") := by decide
+-- the PBKDF2 flavour: the salt text is decoded (RFC 6070-style inputs, 1 iteration; value = the published
+-- PBKDF2-HMAC-SHA256 vector for password/salt/1/32), undecodable or non-ASCII salt text and 0 iterations raise
+example : Base64.decodeStr (ascii "c2FsdA==") = .ok (ascii "salt") := by decide
+example : saltedPassword (fun _ _ _ _ => .error .runtimeError) .pbkdf2 (ascii "password") (ascii "c2FsdA==") 1
+    = .ok (Pbkdf2.hmacSha256 (ascii "password") (ascii "salt") 1 32) :=
+  scram_pbkdf2_salted_password _ _ _ _ 1 (by decide) (by decide)
+example : saltedPassword (fun _ _ _ _ => .error .runtimeError) .pbkdf2 (ascii "pw") (ascii "c2F") 1 = .error .binasciiError := by
+  decide
+example : saltedPassword (fun _ _ _ _ => .error .runtimeError) .pbkdf2 (ascii "pw") [0xe9] 1 = .error .valueError := by decide
+example : saltedPassword (fun _ _ _ _ => .error .runtimeError) .pbkdf2 (ascii "pw") (ascii "c2FsdA==") 0 = .error .valueError := by
+  decide
 
 -- TOTP: the RFC 6238 secret decodes, and time 59 is step 1 ≥ 1
 example : Base32.pyDecode (ascii "GEZDGNBVGY3TQOJQGEZDGNBVGY3TQOJQ") = some (ascii "12345678901234567890") := by
